@@ -734,8 +734,8 @@ fn cmd_pp(args: &[String]) -> i32 {
         let detail = format!(
             "shape(parent array)={:?} renderings={:?} start={} mode={} chunking={:?} embedded={}: expected {:?}, got {:?}",
             m.parent.iter().map(|p| if *p == usize::MAX { -1 } else { *p as i64 }).collect::<Vec<_>>(),
-            m.assign.iter().map(|r| pp::ALPHABET[*r as usize]).collect::<Vec<_>>(),
-            m.start, pp::MODES[m.mode], m.chunking, m.embedded, m.expected, m.got
+            m.assign.iter().map(|r| pp::raw_name(*r)).collect::<Vec<_>>(),
+            m.start, pp::MODES[m.mode], m.chunking, m.embedded, shorten(&m.expected), m.got.as_ref().map(|g| shorten(g)).map_err(|e| shorten(e))
         );
         unknown += emit_simple("C14", &sig, &detail, &known, json!({
             "engine": "pp",
@@ -753,6 +753,7 @@ fn cmd_pp(args: &[String]) -> i32 {
                 "distinct_nontrivial": res.distinct_nontrivial,
                 "rule": format!("every ordered tree shape with <= {max_n} nodes ({} shapes) x every start node x renderings from {:?} (full product for shapes with <= {full_n} nodes, otherwise every assignment with at most {k} non-trivial renderings) x 4 write chunkings (whole, per line, per char via write_str, per char via write_char) x stand-alone/embedded-with-siblings-and-ancestors x 4 format modes, each compared for string equality with a reference renderer; distinct_nontrivial = distinct (mode, expected text) pairs among cases whose start node has at least one child", res.shapes, pp::ALPHABET),
                 "samples": res.samples,
+                "long_lines": format!("{} (shape, assignment) pairs: every shape with <= 3 nodes and a five-level spine, one node in turn or all nodes carrying one or two lines of {:?} chars (lines above 5 000 chars: whole / split-in-two chunkings, stand-alone only)", res.long_line_cases, pp::LONG),
                 "exhaustive": true,
                 "shapes": res.shapes,
                 "buildcfg": report::buildcfg(),
@@ -763,6 +764,26 @@ fn cmd_pp(args: &[String]) -> i32 {
         }));
     }
     if unknown > 0 { 1 } else { 0 }
+}
+
+/// runs of one character longer than 24 are written as `c{n}` (long-line cases of the printer)
+fn shorten(s: &str) -> String {
+    let mut out = String::new();
+    let cs: Vec<char> = s.chars().collect();
+    let mut i = 0;
+    while i < cs.len() {
+        let mut j = i;
+        while j < cs.len() && cs[j] == cs[i] {
+            j += 1;
+        }
+        if j - i > 24 {
+            out.push_str(&format!("{}{{x{}}}", cs[i], j - i));
+        } else {
+            out.extend(&cs[i..j]);
+        }
+        i = j;
+    }
+    out
 }
 
 fn collect_states(n: usize, a: usize) -> Vec<state::State> {
